@@ -465,9 +465,30 @@ def rule_no_none_into_script_values(ctx, rep, rid: str) -> None:
     vmcls = ctx.facts.vm_dispatcher()[0].cls
     from ..util import bind_args
 
-    def normalises(m: Func, p: str) -> bool:
+    def normalises(m: Func, p: str, depth: int = 0) -> bool:
         txt = " ; ".join(norm(s) for s in m.body())
-        return f"{p} if {p} is not None else UNDEFINED" in txt or f"if {p} is None" in txt or f"{p} or UNDEFINED" in txt
+        if f"{p} if {p} is not None else UNDEFINED" in txt or f"UNDEFINED if {p} is None else {p}" in txt or f"if {p} is None" in txt or f"{p} or UNDEFINED" in txt:
+            return True
+        if depth >= 2:
+            return False
+        # the parameter is only handed on, to callees that map None themselves
+        uses = [u for u in m.own_nodes() if isinstance(u, ast.Name) and u.id == p and isinstance(u.ctx, ast.Load)]
+        if not uses:
+            return False
+        for u in uses:
+            par = getattr(u, "_parent", None)
+            if isinstance(par, ast.keyword):
+                par = getattr(par, "_parent", None)
+            if not isinstance(par, ast.Call):
+                return False
+            cs = ctx.cg.site_of_call.get(id(par))
+            if cs is None or cs.kind != "resolved" or not cs.targets:
+                return False
+            for t in cs.targets:
+                q = next((k for k, a in bind_args(par, t).items() if a is u), None)
+                if q is None or not normalises(t, q, depth + 1):
+                    return False
+        return True
 
     value_params: Dict[int, List[str]] = {}
     for m in vmcls.methods.values():
@@ -1510,3 +1531,69 @@ def rule_nearest_definition_decides(ctx, rep, rid: str) -> None:
             rep.bad(rid, key, f"{f.qual} asks `{short(c, 40)}`, which follows the whole prototype chain through the accessor tables, before looking at data properties: an own (or nearer) data property does not shadow an inherited accessor (Object.create(p, {{x: {{value: 5}}}}).x runs p's getter)", f"{f.module.rel}:{c.lineno}")
         else:
             rep.ok(rid, key, {"chain_wide_accessor_helpers": sorted(chainwide)})
+
+
+# ---- attributes that may hold the host's None never reach a script as they are -----------------------------
+def _optional_attrs(ctx) -> Set[str]:
+    """Attributes of the object-model classes declared Optional[...] or initialised with None (the end of a
+    prototype chain, a typed array without a buffer ...)."""
+    out: Set[str] = set()
+    for ci in ctx.tree.mod("values").classes.values():
+        for m in ci.methods.values():
+            if isinstance(m.node, ast.Lambda):
+                continue
+            for a in m.own_nodes():
+                if isinstance(a, ast.AnnAssign) and isinstance(a.target, ast.Attribute) and norm(a.target.value) == "self" and "Optional" in norm(a.annotation):
+                    out.add(a.target.attr)
+                if isinstance(a, ast.Assign) and isinstance(a.value, ast.Constant) and a.value.value is None:
+                    for t in a.targets:
+                        if isinstance(t, ast.Attribute) and norm(t.value) == "self":
+                            out.add(t.attr)
+                if isinstance(a, ast.Assign) and isinstance(a.value, ast.Name) and m.name == "__init__":
+                    # self._prototype = prototype with `prototype: Optional[...] = None`
+                    for x in m.node.args.args:
+                        if x.arg == a.value.id and x.annotation is not None and "Optional" in norm(x.annotation):
+                            for t in a.targets:
+                                if isinstance(t, ast.Attribute) and norm(t.value) == "self":
+                                    out.add(t.attr)
+    return out
+
+
+def rule_optional_attributes_mapped(ctx, rep, rid: str) -> None:
+    """The object model marks "nothing here" with the host's None (no prototype, no buffer).  Where such an attribute
+    becomes a script value - the result of a property read or of a native, a value pushed on the operand stack or
+    stored in a script object - None has to be mapped to null/undefined first."""
+    rep.rule(rid, "an attribute of the object model that may hold the host's None (Optional[..] / initialised with None) becomes a script value only behind a None test or mapping (`x if x is not None else NULL`, `x or UNDEFINED`): the end of a prototype chain is null for a script, never Python None", floor=1)
+    from ..util import atoms, known_conditions
+
+    opt = _optional_attrs(ctx)
+    if "_prototype" not in opt:
+        raise AnalysisError(f"the optional attributes of the object model were not recognised ({sorted(opt)[:6]})")
+    sr = ctx.facts.script_reachable()
+    natives = ctx.cg.natives
+    n = 0
+    for f in ctx.tree.funcs:
+        if isinstance(f.node, ast.Lambda) or f.module.name not in ("vm", "context") or id(f) not in sr:
+            continue
+        produces = id(f) in natives or f.name in ("_get_property", "_execute_opcode", "_to_primitive", "_call_host")
+        for node in f.own_nodes():
+            vals = []
+            if isinstance(node, ast.Return) and node.value is not None and produces:
+                vals.append(node.value)
+            if isinstance(node, ast.Call) and isinstance(node.func, ast.Attribute) and norm(node.func) in ("self.stack.append",) and node.args:
+                vals.append(node.args[0])
+            if isinstance(node, ast.Call) and isinstance(node.func, ast.Attribute) and node.func.attr == "set" and len(node.args) == 2 and id(f) in natives:
+                vals.append(node.args[1])
+            for v in vals:
+                if not (isinstance(v, ast.Attribute) and v.attr in opt):
+                    continue
+                n += 1
+                key = f"{f.qual}:{norm(v)[:40]}"
+                ats = [(norm(a).replace(" ", ""), p) for t, pol in known_conditions(node, f.node) for a, p in atoms(t, pol)]
+                vt = norm(v).replace(" ", "")
+                ok = any((a == f"{vt}isnotNone" and p) or (a == f"{vt}isNone" and not p) or (a.startswith(f"isinstance({vt},") and p) for a, p in ats)
+                if ok:
+                    rep.ok(rid, key)
+                else:
+                    rep.bad(rid, key, f"{f.qual} hands `{norm(v)}` to the script as it is ({short(node, 50)}): the attribute holds the host's None where there is nothing (the end of a prototype chain), and None is a value of no JavaScript type (typeof 'undefined', but !== undefined and != null)", f"{f.module.rel}:{node.lineno}")
+    rep.ok(rid, "optional-attributes", {"attributes": sorted(opt), "direct_hand_overs_examined": n})
